@@ -762,7 +762,7 @@ def run_antichain(ctx, n):
         dflt = brute_max_antichain(edges, {e: int(e[0] != st.source and e[1] != st.sink) for e in edges}, reach_from)[0] if empty_dict else None
         meta.append((i, G, st, mode, weight, cost, cost2, anti, err, opt, wit, P, starts, ends, (empty_dict, dflt), A))
     outs = ctx.model.run(reqs)
-    for out, (i, G, st, mode, weight, cost, cost2, anti, err, opt, wit, P, starts, ends, huge, A) in zip(outs, meta):
+    for out, (i, G, st, mode, weight, cost, cost2, anti, err, opt, wit, P, starts, ends, emptywf, A) in zip(outs, meta):
         ren = lambda x: "S" if x == st.source else ("T" if x == st.sink else x)
         replay = {"kind": "antichain", "edges": [list(e) for e in G.edges()], "nodes": list(G.nodes()), "starts": starts, "ends": ends, "mode": mode,
                   "weights": [[ren(u), ren(v), x] for (u, v), x in weight.items()], "impl_cost": cost, "impl_cost_no_antichain": cost2,
@@ -787,7 +787,7 @@ def run_antichain(ctx, n):
             if any(e not in weight for e in anti): bad = "the returned antichain contains a pair that is not an edge"
             elif not anti_ok: bad = "the returned antichain is rejected by the verified checker antichain_ok (two of its edges lie on a common path, or a duplicate)"
             elif aw != cost: bad = f"the returned antichain has weight {aw}, reported optimum {cost}"
-        if huge[0] and cost == cost2 == huge[1] and cost != opt:
+        if emptywf[0] and cost == cost2 == emptywf[1] and cost != opt:
             ctx.report(f"an empty weight dict (all edges ignored / all weights missing) is treated like weight_function=None: reported {cost}, "
                        f"the maximum for the all-zero weights is {opt}", replay, key=K_EMPTYWF, concrete=True)
             continue
